@@ -362,6 +362,53 @@ func refusedBefore(w *World, fi *FuncInfo, node ast.Node, depth int) string {
 					first = h
 				}
 			}
+			// fi handed as a function value to a module function g: the sites are g's calls through that parameter
+			if g := w.Funcs[calleeOf(cinfo, c)]; g != nil && g.Decl.Body != nil {
+				for k, a := range c.Args {
+					var used types.Object
+					switch v := ast.Unparen(a).(type) {
+					case *ast.Ident:
+						used = cinfo.Uses[v]
+					case *ast.SelectorExpr:
+						used = cinfo.Uses[v.Sel]
+					}
+					if used == nil || used != types.Object(fi.Obj) {
+						continue
+					}
+					var param types.Object
+					j := 0
+					for _, f := range g.Decl.Type.Params.List {
+						for _, nm := range f.Names {
+							if j == k {
+								param = g.Pkg.TypesInfo.Defs[nm]
+							}
+							j++
+						}
+					}
+					through := 0
+					ast.Inspect(g.Decl.Body, func(y ast.Node) bool {
+						c2, ok := y.(*ast.CallExpr)
+						if !ok {
+							return true
+						}
+						if id := identOf(c2.Fun); id != nil && param != nil && g.Pkg.TypesInfo.Uses[id] == param {
+							through++
+							nsites++
+							h := refusedBefore(w, g, c2, depth-1)
+							if h == "" {
+								all = false
+							} else if first == "" {
+								first = h
+							}
+						}
+						return true
+					})
+					if through == 0 {
+						nsites++
+						all = false
+					}
+				}
+			}
 			return true
 		})
 	}
